@@ -20,53 +20,78 @@ REPO = os.environ.get("VT_REPO", "/repo")
 CROSSHAIR = os.path.join(VERIF, ".venv", "bin", "crosshair")
 
 
-def _lineno(path, func):
+def _defs(path):
     tree = ast.parse(open(path).read())
-    for n in ast.walk(tree):
-        if isinstance(n, ast.FunctionDef) and n.name == func:
-            return n.lineno
-    raise KeyError(func)
+    return sorted((n.lineno, n.name) for n in ast.walk(tree) if isinstance(n, ast.FunctionDef))
 
 
-def _one(path, func, timeout, env):
-    line = _lineno(path, func)
+def _batch(path, funcs, timeout, env):
+    """One CrossHair process checking several conditions sequentially (amortises interpreter start-up)."""
+    defs = _defs(path)
+    line_of = {n: l for l, n in defs}
     e = dict(os.environ)
     e["PYTHONPATH"] = os.pathsep.join([os.path.join(REPO, "src"), VERIF])
     e["PYTHONDONTWRITEBYTECODE"] = "1"
+    e["VT_UNDER_CROSSHAIR"] = "1"
     e.update(env or {})
     t = time.time()
+    targets = ["%s:%d" % (path, line_of[f]) for f in funcs]
     try:
         p = subprocess.run([CROSSHAIR, "check", "--report_all", "--per_condition_timeout", str(timeout),
-                            "--per_path_timeout", str(max(5, timeout // 4)),
-                            "%s:%d" % (path, line)], capture_output=True, text=True, env=e,
-                           timeout=timeout * 3 + 120)
+                            "--per_path_timeout", str(max(5, timeout // 4))] + targets,
+                           capture_output=True, text=True, env=e, timeout=(timeout * 2 + 30) * len(funcs) + 120)
         out = p.stdout + p.stderr
     except subprocess.TimeoutExpired as ex:
         out = "TIMEOUT " + str(ex)
     dt = time.time() - t
-    res = dict(func=func, wall_s=round(dt, 2), raw=out.strip()[-1500:])
-    if "Confirmed over all paths" in out:
-        res["verdict"] = "confirmed"
-    elif re.search(r"error: ", out):
-        res["verdict"] = "counterexample"
-        m = re.search(r"when calling (\w+)\((.*?)\)(?: \(which|\s*$)", out, re.M)
-        if m:
-            res["call"] = "%s(%s)" % (m.group(1), m.group(2))
-            res["args"] = m.group(2)
-    elif "Not confirmed" in out:
-        res["verdict"] = "not_confirmed"
-    elif "Unable to meet precondition" in out:
-        res["verdict"] = "no_precondition"
-    else:
-        res["verdict"] = "error"
+    res = {}
+    per = {f: [] for f in funcs}
+    for ln in out.splitlines():
+        m = re.match(r"%s:(\d+): (info|error): (.*)" % re.escape(path), ln)
+        if not m:
+            continue
+        lno = int(m.group(1))
+        owner = None
+        for l, n in defs:
+            if l <= lno:
+                owner = n
+        if owner in per:
+            per[owner].append((m.group(2), m.group(3)))
+    for f in funcs:
+        r = dict(func=f, wall_s=round(dt / max(1, len(funcs)), 2), raw="\n".join("%s: %s" % x for x in per[f])[-1500:] or out.strip()[-600:])
+        msgs = per[f]
+        errs = [m for k, m in msgs if k == "error"]
+        infos = " ".join(m for k, m in msgs if k == "info")
+        if errs:
+            r["verdict"] = "counterexample"
+            m = re.search(r"when calling (\w+)\((.*?)\)(?: \(which|\s*$)", errs[0])
+            if m:
+                r["call"] = "%s(%s)" % (m.group(1), m.group(2))
+                r["args"] = m.group(2)
+            if not errs[0].startswith("false when calling"):
+                r["exception"] = errs[0][:200]
+        elif "Confirmed over all paths" in infos:
+            r["verdict"] = "confirmed"
+        elif "Not confirmed" in infos:
+            r["verdict"] = "not_confirmed"
+        elif "Unable to meet precondition" in infos:
+            r["verdict"] = "no_precondition"
+        else:
+            r["verdict"] = "error"
+        res[f] = r
     return res
 
 
 def run_conditions(path, funcs, timeout=60, env=None, workers=16):
-    """-> {func: result}"""
+    """-> {func: result}; conditions are spread round-robin over `workers` CrossHair processes."""
+    funcs = list(funcs)
+    groups = [funcs[i::workers] for i in range(workers)]
+    groups = [g for g in groups if g]
+    out = {}
     with cf.ThreadPoolExecutor(max_workers=workers) as ex:
-        futs = {f: ex.submit(_one, path, f, timeout, env) for f in funcs}
-        return {f: fu.result() for f, fu in futs.items()}
+        for r in ex.map(lambda g: _batch(path, g, timeout, env), groups):
+            out.update(r)
+    return out
 
 
 def replay_call(module_name, func, args_src, env=None):
